@@ -145,7 +145,7 @@ def execute(case):
     st = fac.stats()
     over = sum(st["overrides"].values())
     return {"violation": None, "digest": digest([case["family"], fac.digest()]),
-            "stats": {"c14": {"calls_" + case["family"]: 1, "perturbations": info["perturbations"]},
+            "stats": {"c14": {"calls_" + case["family"]: 1, "perturbations": info["perturbations"], "exact_pool_checks": info.get("exact_pool_checks", 0)},
                       "faults": st["overrides"], "draws": st["draws"]},
             "nontrivial": sum(st["draws"].values()) >= 3 and (over >= 1 or info["perturbations"] >= 1),
             "sample": {"case": case, "draw_trace_head": fac.head}}
@@ -276,8 +276,30 @@ def _dispatch(case, fac, info):
             kw["seed"] = case["sut_seed"]
         if fam == "shuffle":
             kw["size" if case["by"] == "size" else "order"] = case["size"] if case["by"] == "size" else case["size"] - 1
+            listed = [tuple(e) for e in h.get_edges(size=case["size"])]  # the order the function will see
+            n_before = len(fac.samples_served)
             res = _call(fam, G.random_shuffle, h, **kw)
             sizes = [case["size"]]
+            # the simulator served the draw that selects which hyperedges are rewired: the pool is known exactly
+            sel = [r for (site, npop, r) in fac.samples_served[n_before:] if npop == len(listed) and site and "generation.random" in site]
+            if sel and all(isinstance(i, int) and 0 <= i < len(listed) for i in sel[0]):
+                chosen = set(sel[0])
+                pool_exact = {_nt(n) for i in chosen for n in listed[i]}
+                kept = [sorted(map(_nt, listed[i])) for i in range(len(listed)) if i not in chosen]
+                out0 = h if case["inplace"] else res
+                if out0 is not None:
+                    remaining = list(kept)
+                    for e in _edges(out0):
+                        if len(e) != case["size"]:
+                            continue
+                        if e in remaining:
+                            remaining.remove(e)
+                            continue
+                        if any(n not in pool_exact for n in e):
+                            raise Violation("C14/shuffle/node-outside-rewired-hyperedges", {
+                                "edge": short(e), "rewired": short([listed[i] for i in sorted(chosen)]), "p": case["p"],
+                                "preserve_degree": case["preserve_degree"]})
+                info["exact_pool_checks"] = info.get("exact_pool_checks", 0) + 1
         else:
             res = _call(fam, G.random_shuffle_all_orders, h, **kw)
             sizes = sorted({len(e) for e in before_edges})
